@@ -8,6 +8,7 @@ package db
 
 import (
 	"bufio"
+	"encoding/json"
 	"fmt"
 	"os"
 	"path/filepath"
@@ -165,9 +166,59 @@ func TestVerifC17(t *testing.T) {
 		im.close()
 		os.RemoveAll(dir)
 	}
+	// "directories that regain room through deletions are used again": fill a directory, make the store
+	// move on to a second one, free 60 entries of the first, write 40 more files.  Each of them chooses
+	// between two candidates: the first directory stays at 40 entries with probability 2^-40.
+	var reuseBad []string
+	for variant := 0; variant < 3; variant++ {
+		dir := filepath.Join(out, fmt.Sprintf("c17-reuse-%d", variant))
+		os.RemoveAll(dir)
+		im := newSeqImpl(dir, 1)
+		root := filepath.Join(dir, "root0")
+		switch variant { // the configured spelling of a root need not be its cleaned form
+		case 1:
+			root += "/"
+		case 2:
+			root = dir + "/./root0"
+		}
+		im.roots[0] = root
+		im.cfg.Storage.RootDirs = []string{root}
+		if err := im.open(); err != nil {
+			t.Fatal(err)
+		}
+		for i := 0; i < 101; i++ {
+			if err := im.d.Set(im.ctx, fmt.Sprintf("reuse-%d", i), []byte{1}); err != nil {
+				t.Fatalf("set: %v", err)
+			}
+		}
+		first := ""
+		for name, c := range im.walk17().counts[0] {
+			if c == 100 {
+				first = name
+			}
+		}
+		for i := 0; i < 60; i++ {
+			im.d.Delete(im.ctx, fmt.Sprintf("reuse-%d", i))
+		}
+		im.d.container.Cleaner().DeleteOld(im.ctx)
+		drainPool()
+		before := im.walk17().counts[0][first]
+		for i := 0; i < 40; i++ {
+			if err := im.d.Set(im.ctx, fmt.Sprintf("again-%d", i), []byte{2}); err != nil {
+				t.Fatalf("set: %v", err)
+			}
+		}
+		after := im.walk17().counts[0][first]
+		if first == "" || before != 40 || after <= before {
+			reuseBad = append(reuseBad, fmt.Sprintf("root spelled %q: the directory that was full held %d entries after 60 deletions and %d after 40 further writes (never used again)", root, before, after))
+		}
+		im.close()
+		os.RemoveAll(dir)
+	}
 	ops.Flush()
 	impl.Flush()
 	opsF.Close()
 	implF.Close()
-	os.WriteFile(filepath.Join(out, "c17.stats.json"), []byte(fmt.Sprintf(`{"lines": %d, "histories": %d, "new_dirs": %d, "max_entries_seen": %d}`, lines, nhist, rotations, maxSeen)), 0o644)
+	rb, _ := json.Marshal(reuseBad)
+	os.WriteFile(filepath.Join(out, "c17.stats.json"), []byte(fmt.Sprintf(`{"lines": %d, "histories": %d, "new_dirs": %d, "max_entries_seen": %d, "reuse_scenarios": 3, "reuse_bad": %s}`, lines, nhist, rotations, maxSeen, rb)), 0o644)
 }
